@@ -93,7 +93,9 @@ class ClassNotDeserializableError(JSONSerializationError):
     clazz: Type
 
     def __post_init__(self):
-        super().__init__(f"Class '{self.clazz.__name__}' cannot be deserialized")
+        # what the tag names need not be a class at all (a module-level constant has no __name__)
+        name = getattr(self.clazz, "__name__", repr(self.clazz))
+        super().__init__(f"Class '{name}' cannot be deserialized")
 
 
 @dataclass
@@ -225,6 +227,10 @@ class SubclassJSONSerializer:
 
         if not isinstance(target_cls, type):
             # a function, a module, a type variable, ... is not a class that can be deserialized
+            raise ClassNotDeserializableError(target_cls)
+
+        if target_cls is SubclassJSONSerializer:
+            # the protocol class itself declares _from_json but cannot be deserialized
             raise ClassNotDeserializableError(target_cls)
 
         if issubclass(target_cls, SubclassJSONSerializer):
